@@ -89,6 +89,17 @@ def _format_to_fstring(call: ast.Call) -> Optional[ast.AST]:
     return ast.JoinedStr(values=parts)
 
 
+def _call_free(e: ast.AST) -> bool:
+    return not any(isinstance(n, (ast.Call, ast.NamedExpr, ast.Await, ast.Yield, ast.YieldFrom, ast.Lambda, ast.IfExp, ast.BoolOp, ast.Compare,
+                                  ast.ListComp, ast.SetComp, ast.DictComp, ast.GeneratorExp, ast.JoinedStr)) for n in ast.walk(e))
+
+
+def _orient_key(e: ast.AST) -> tuple:
+    text = ast.unparse(e)
+    rank = 3 if isinstance(e, ast.Constant) else (2 if text.split(".")[-1].isupper() else 1)
+    return (rank, -sum(1 for _ in ast.walk(e)), text)
+
+
 class _Shape(ast.NodeTransformer):
     def visit_Call(self, node: ast.Call):
         self.generic_visit(node)
@@ -101,6 +112,16 @@ class _Shape(ast.NodeTransformer):
             o = node.operand
             if isinstance(o, ast.Compare) and len(o.ops) == 1 and type(o.ops[0]) in _DUAL:
                 return ast.copy_location(ast.Compare(left=o.left, ops=[_DUAL[type(o.ops[0])]()], comparators=o.comparators), node)
+        return node
+
+    def visit_Compare(self, node: ast.Compare):
+        # K11: one orientation for symmetric comparisons of call-free operands: the more constant side on the right
+        # (literal > ALL_CAPS name > anything else), then the larger operand on the left, then alphabetical
+        self.generic_visit(node)
+        if len(node.ops) == 1 and isinstance(node.ops[0], (ast.Eq, ast.NotEq)):
+            a, b = node.left, node.comparators[0]
+            if _call_free(a) and _call_free(b) and _orient_key(a) > _orient_key(b):
+                node.left, node.comparators = b, [a]
         return node
 
     def visit_If(self, node: ast.If):
